@@ -80,6 +80,21 @@ def lm_info(name, layout=None):
         d = dict(env)
         d.update({'command': '/sim/bin/jsrun', 'erf': n == 'JSRUN_ERF'})
         return d
+    if n == 'PRTE':
+        # what PRTE._configure would report: the allocation's nodes split
+        # evenly over `prte_dvms` DVMs (partitions), one URI each
+        lay = layout or {}
+        n_nodes = (lay.get('nodes') or 0) + (lay.get('agent_nodes') or 0)
+        k   = max(1, min(int(lay.get('prte_dvms') or 1), n_nodes or 1))
+        per = -(-n_nodes // k) if n_nodes else 0
+        d = dict(env)
+        d.update({'command': '/sim/bin/prun', 'details': {
+            'dvm_list': {i: {'nodes': list(range(i * per,
+                                                 min(n_nodes, (i + 1) * per))),
+                             'dvm_uri': 'prte://dvm.%d' % i}
+                         for i in range(k)},
+            'version_info': {'name': 'PRRTE', 'version': '2.0'}}})
+        return d
     raise K.HarnessError('no lm_info for %s' % name)
 
 
